@@ -603,7 +603,9 @@ META = {
                 "every referenced type exists with the right kind; implementers satisfy field / argument / transitive-interface contracts (recomputed); no non-null input-object cycle (own DFS); no user-defined name starts with __; "
                 "the type map holds a built-in scalar if and only if some field, argument, input field or directive-definition argument references it (built-in definitions included). "
                 "Workload: regression witnesses, corpus schemas, C14's model workload (valid documents, mutants, boundary edits, pairs; plain and trivia prints), apollo-smith output, and hill climbing: starting from each invalid mutant, "
-                "random repairs/mutations are kept when apollo's diagnostic count does not grow, and every accepted schema met on the way is checked. "
+                "random repairs/mutations are kept when apollo's diagnostic count does not grow, and every accepted schema met on the way is checked; "
+                "API sessions: a Valid<Schema> is taken back with into_inner(), edited through the public API (fields, arguments and input fields of built-in scalar types added to and removed from existing types, "
+                "among them rounds that reference every built-in scalar missing from the type map), validated again (1-3 rounds on the same value) and audited after every accepted round. "
                 "distinct_nontrivial = distinct accepted schema texts on which at least 5 of the 7 invariant clauses were decided on a real instance",
         "assumptions": COMMON_ASSUMPTIONS + [
             "only schemas apollo accepts are judged; whether acceptance itself is right is C14's business (the checker shares no code with RefSchemaRules)",
@@ -614,7 +616,8 @@ META = {
             "clause": ["query-root:exercised", "roots:exercised", "references:exercised", "implementation:exercised", "implementation:with-interface-fields",
                        "input-cycle:exercised", "input-cycle:with-non-null-edges", "reserved-names:exercised", "builtin-scalars:exercised"],
             "builtin_scalars_in_type_map": ["2", "3", "4", "5"],
-            "source": ["c14-workload-generated-valid", "c14-workload-neutral", "hill-climb", "corpus", "smith", "regression"]}},
+            "session": ["re-validated after API edits"],
+            "source": ["c14-workload-generated-valid", "c14-workload-neutral", "hill-climb", "corpus", "smith", "regression", "api-session"]}},
         "technique": "runtime monitoring: structural invariant checker at the quiescent point right after validation succeeds, workload concentrated on the acceptance boundary by hill climbing",
         "level_text": "Exploration: the stated invariants are asserted on every schema apollo accepts out of 10^4-10^6 generated, mutated, repaired and corpus documents.",
         "level_note": "Trusts the public Schema API as the observation of what was accepted. Hill climbing is guided by apollo's own diagnostic count (search heuristic only, never a verdict).",
@@ -623,7 +626,7 @@ META = {
     "C17": {
         "budget": {"quick": 60, "thorough": 900},
         "rule": "cases: (schema, executable document) pairs whose schema apollo accepts. Path A (model path): schema_gen x exec_gen pairs and one mutator family per reference rule "
-                "(gen/exec_mut.rs, plus validity-preserving families), printed with print_plain / print_trivia and judged on the model; path B (parsed path): fixed witnesses, the "
+                "(gen/exec_mut.rs, plus validity-preserving families and multi-definition scenarios: one fragment shared by 2-3 operations of which one does not declare the variable it uses, and one response key under two object type conditions plus their interface with a conflict against only one object), printed with print_plain / print_trivia and judged on the model; path B (parsed path): fixed witnesses, the "
                 "apollo-compiler/test_data/{ok,diagnostics} files that hold both a schema and executable definitions, and apollo-smith documents, converted with from_ast and split. "
                 "Refuting event: ExecutableDocument::parse_and_validate(..).is_ok() != RefExecRules(flat schema, document).is_empty(). "
                 "distinct_nontrivial = distinct (schema text, document text) pairs on which both verdicts were obtained and the reference was outside its don't-care bands; "
@@ -635,6 +638,7 @@ META = {
             "schemas that apollo rejects are skipped (C14's business); panics are C21's",
         ],
         "floors": {"any": {"rule": [r + v for r in _C17_RULES for v in (":violated", ":satisfied")],
+                           "mutator": ["SharedFragment:UndefinedVariableInOneOperation:applied", "Valid:SharedFragmentVariables:applied", "AbstractParent:ConflictWithOneObject:applied", "Valid:AbstractParentSameField:applied"],
                            "source": ["witness", "corpus", "generated", "mutant", "smith"]}},
         "technique": "runtime monitoring: differential reference-model monitor (one function per spec rule, naive pairwise field merging) over generated pairs, per-rule mutants, corpora and apollo-smith output, with greedy model-level witness minimisation",
         "level_text": "Exploration: apollo's accept/reject verdict is compared with an independent reference implementation of the spec's executable validation rules on 10^4-10^6 generated pairs and per-rule mutants; every reference rule is observed with both verdicts in every run.",
@@ -834,7 +838,7 @@ META = {
             "root": ["null-propagated-to-root"],
             "operation_kind": ["query", "mutation"],
             "source": ["exhaustive-palette", "random-world"],
-            "feature": ["skip-include", "named-fragments", "schema-introspection-meta-field"],
+            "feature": ["skip-include", "skip-and-include-on-one-selection", "named-fragments", "schema-introspection-meta-field"],
         }},
         "exhaustive_subspaces": {
             "quick": ["for every generated request whose operation touches <= 5 distinct (object type, field) cells: all 6^n resolver worlds over a 6-outcome palette per cell (counter exhaustive_enumerations_completed; enumerations cut by the budget are counted separately)"],
